@@ -271,11 +271,16 @@ func c11Record(blk *c11Block, config string) {
 			multi = true
 		}
 	}
+	afterPadded := false
 	for _, ns := range blk.NamespacesPresent() {
 		ref := blk.RefNamespace(ns)
 		for i := 1; i < len(ref); i++ {
 			if ref[i].Start == ref[i-1].Start+ref[i-1].Shares {
 				adjacent = true
+			}
+			// a blob that starts in the row in which a padded blob of its namespace started
+			if blk.PaddingBefore(ref[i-1]) > 0 && ref[i].Start/blk.ODS == ref[i-1].Start/blk.ODS {
+				afterPadded = true
 			}
 		}
 	}
@@ -294,6 +299,7 @@ func c11Record(blk *c11Block, config string) {
 	add(rows2, "layout=blob-spans-row-boundary")
 	add(rows3, "layout=blob-spans-3+-rows")
 	add(adjacent, "layout=adjacent-blobs-same-namespace")
+	add(afterPadded, "layout=blob-after-padded-blob-in-same-row")
 	add(dup, "layout=byte-identical-duplicates")
 	add(v1, "shareversion=1")
 	add(blk.NormalTxs > 0, "ordinary-txs")
